@@ -189,7 +189,11 @@ def run():
             meta[rid] = ("module", f, a, 0)
     # the value of a body that ends with each kind of statement, used in every way a value can be used
     stmts = ["defer 1", "defer 1 if true", "defer 1 if false", "return 1", "return 1 if false", "yield 1", "yield 1 if false", "raise Err.new(\"e\")", "raise Err.new(\"e\") if false",
-             "x := 1", "1", "nil", "defer (defer 1)", "return (defer 1)", "defer return 1", "yield (defer 1)", "defer yield 1", "defer raise Err.new(\"e\")", "return return 1", "return yield 1"]
+             "x := 1", "1", "nil", "defer (defer 1)", "return (defer 1)", "defer return 1", "yield (defer 1)", "defer yield 1", "defer raise Err.new(\"e\")", "return return 1", "return yield 1",
+             # statements whose expression, guard or deferred part FAILS (every jump kind x plain / guarded)
+             "defer 1 / 0", "defer 1 / 0 if true", "defer 1 / 0 if false", "defer 1 if 1 / 0", "defer undefinedname if true", "defer 1.nosuch(2) if 1", "return 1 / 0", "return 1 / 0 if true",
+             "return 1 if 1 / 0", "yield 1 / 0", "yield 1 / 0 if true", "yield 1 if 1 / 0", "raise 1 / 0", "raise Err.new(\"e\") if 1 / 0", "raise 5", "raise nil if true", "defer (raise Err.new(\"d\")) if true",
+             "defer 1 / 0; defer 2 / 0 if true; raise Err.new(\"body\")", "defer \"a\".p if true; 1 / 0", "defer 1 / 0 if true; return 5"]
     uses = ["{{|| {s}}}().p", "[{{|| {s}}}()]", "v := {{|| {s}}}(); v.S", "{{|| {s}}}().try.A", "{{|| {s}}}() == 1", "\"#{{{{|| {s}}}()}}\"", "{{a: {{|| {s}}}()}}.a", "%{{{{|| {s}}}(): 1}}",
             "<{{|| {s}}}>.new.try.next.A", "<{{|| {s}}}>.new.A", "[1, 2]@{{|x| {s}}}", "[1, 2]$(0){{|a, x| {s}}}", "1.{{|x| {s}}}.p", "{{m: m{{{s}}}}}.m.S", "f := {{|| {s}}}; [f(), f()]",
             "{{|| {s}; 2}}()", "{{|| 2; {s}}}().repr", "{s}", "({s})", "[{s}]"]
